@@ -26,7 +26,9 @@ BACKENDS = {
 # --pointer-overflow-check is deliberately not a default: forming (not dereferencing) an out-of-object pointer, e.g.
 # `out + inlen - padding_len - 1` in tls_cbc_decrypt, is standard-level UB that no property of this task is about and no
 # sanitizer confirms; dereferences are still checked (pointer-check / bounds-check are on by default in cbmc 6).
-DEFAULT_CHECKS = ["--undefined-shift-check", "--signed-overflow-check"]
+# --signed-overflow-check is opt-in per obligation ("checks"): the code base shifts bytes into signed ints in decoders
+# (asn1_int_from_der_ex: `*a << 8` then rejects negatives), standard-level UB that is not a property of this task.
+DEFAULT_CHECKS = ["--undefined-shift-check"]
 
 _lock = threading.Lock()
 _unit_cache = {}
@@ -217,7 +219,7 @@ def build_obligation(ob, bdir, witness=False, extra_defs=()):
         objs.append(build_unit(bdir, os.path.join(VERIF, m), defs, quiet, ()))
     hdefs = defs + list(extra_defs) + (["-DWITNESS"] if witness else [])
     hsrc = os.path.join(VERIF, d["harness"])
-    hobj = build_unit(bdir, hsrc, hdefs, quiet, ())
+    hobj = build_unit(bdir, hsrc, hdefs, quiet, (), shims=tuple(d.get("shims", {}).get(d["harness"], [])))
     objs.append(hobj)
     tag = hashlib.sha256((ob.id + repr(witness) + repr(extra_defs)).encode()).hexdigest()[:10]
     out = os.path.join(bdir, "o_%s_%s.gb" % (re.sub(r"[^A-Za-z0-9_]", "_", ob.id), tag))
